@@ -32,3 +32,14 @@ Theorem C09_deferred_argument : forall w r p e a s parent,
   nth_error (r_scopes r) (r_cur r) = Some s -> s_parent s = Some parent ->
   pc_after w r (NSymbol p e true) a = (do v <- eval_raw w (set_cur r parent) e; Ok (add_symbol r p v, a)).
 Proof. intros w r p e a s parent Hn Hp. cbn [pc_after]. rewrite Hn, Hp. reflexivity. Qed.
+
+(** A code-block argument: where the parameter is spliced ({{p}}), the statements of the argument
+    block are generated in place (no scope of their own), exactly as if they were written there;
+    splicing a name that is not bound to a code block fails. *)
+Theorem C09_code_splice : forall w gen s name fi body bfi fi',
+  value_for (cg_r s) name = Ok (VCode body bfi) ->
+  gen_one w gen s (ACodeLookup name fi) = gen_one w gen s (ABlock body fi').
+Proof. intros w gen s name fi body bfi fi' H. cbn [gen_one]. rewrite H. reflexivity. Qed.
+Theorem C09_code_splice_not_code : forall w gen s name fi v,
+  value_for (cg_r s) name = Ok (VInt v) -> gen_one w gen s (ACodeLookup name fi) = Err ENode.
+Proof. intros w gen s name fi v H. cbn [gen_one]. rewrite H. reflexivity. Qed.
